@@ -28,6 +28,8 @@ pub enum T {
     File,
     Link(u8),
     Dir(u32, Vec<T>),
+    /// an entry that is neither file, directory nor symlink: 0 = FIFO, 1 = UNIX socket
+    Special(u8),
 }
 
 pub const LINK_KINDS: [&str; 10] = ["inside-file", "inside-dir-dot", "sibling-layer-dir", "sibling-layer-file", "outside-dir-abs", "outside-file-abs", "outside-dir-rel", "dangling", "self-loop", "pair-loop"];
@@ -41,6 +43,8 @@ fn leaf_types(level: usize) -> Vec<T> {
     for m in MODES {
         v.push(T::Dir(m, vec![]));
     }
+    v.push(T::Special(0));
+    v.push(T::Special(1));
     let _ = level;
     v
 }
@@ -108,6 +112,7 @@ fn put_tree(s: &mut Snapshot, prefix: &str, entries: &[T], root: &Path, depth: u
         match t {
             T::File => s.insert(&key, Node::File { mode: 0o444, data: b"x".to_vec() }),
             T::Link(k) => s.insert(&key, Node::Link { target: link_target(*k, root, depth, i) }),
+            T::Special(k) => s.insert(&key, Node::Other { what: if *k == 0 { "fifo".into() } else { "socket".into() } }),
             T::Dir(m, kids) => {
                 s.insert(&key, Node::Dir { mode: *m });
                 put_tree(s, &key, kids, root, depth + 1);
@@ -135,6 +140,9 @@ pub struct Case {
     /// mode of the layers directory itself (the parent of the layer: outside the layer)
     #[serde(default = "default_layers_mode")]
     layers_mode: u32,
+    /// the layer is the only entry of the layers directory (no siblings, no store.toml)
+    #[serde(default)]
+    lonely: bool,
 }
 
 fn default_layers_mode() -> u32 {
@@ -153,16 +161,21 @@ fn world(case: &Case, root: &Path) -> Snapshot {
     s.insert("outside/dir555/file", Node::File { mode: 0o444, data: b"canary".to_vec() });
     s.insert("outside/dir555/sub", Node::Dir { mode: 0o555 });
     s.insert("outside/dir555/sub/deep", Node::File { mode: 0o444, data: b"deep".to_vec() });
-    s.insert("layers/store.toml", Node::file(b"[metadata]\nk = 1\n"));
+    if !case.lonely {
+        s.insert("layers/store.toml", Node::file(b"[metadata]\nk = 1\n"));
+    }
     // siblings: unrelated, sharing a prefix, and "<name>.<more>" (whose toml/SBOM names start with "a.")
     // ... and names an implementation might use for its own temporaries next to layer `a`
-    for sib in ["b", "ab", "a.x", "a.deleting", "a.tmp", "a.bak", "a.old", "a~", ".a", ".a.tmp"] {
+    let sibs: &[&str] = if case.lonely { &[] } else { &["b", "ab", "a.x", "a.deleting", "a.tmp", "a.bak", "a.old", "a~", ".a", ".a.tmp"] };
+    for sib in sibs {
         s.insert(&format!("layers/{sib}"), Node::Dir { mode: 0o555 });
         s.insert(&format!("layers/{sib}/keep"), Node::File { mode: 0o444, data: b"keep".to_vec() });
         s.insert(&format!("layers/{sib}.toml"), Node::file(b"[types]\ncache = true\n"));
         s.insert(&format!("layers/{sib}.sbom.cdx.json"), Node::file(b"{}"));
     }
-    s.insert("layers/a.sbom.cdx.json", Node::file(b"{}"));
+    if !case.lonely {
+        s.insert("layers/a.sbom.cdx.json", Node::file(b"{}"));
+    }
     match case.top {
         Top::Real | Top::TomlLink => {
             s.insert("layers/a", Node::dir());
@@ -303,7 +316,7 @@ impl Drop for Worker {
 
 fn only_benign(tree: &[T]) -> bool {
     tree.iter().all(|t| match t {
-        T::File => true,
+        T::File | T::Special(_) => true,
         T::Link(k) => [0u8, 1, 7, 8, 9].contains(k),
         T::Dir(_, kids) => only_benign(kids),
     })
@@ -377,17 +390,21 @@ pub fn run(args: &Args) {
     let budget = if args.thorough() { 4 } else { 3 };
     let trees = gen_lists(budget, 1);
     for t in &trees {
-        cases.push(Case { top: Top::Real, tree: t.clone(), layers_mode: 0o755 });
+        cases.push(Case { top: Top::Real, tree: t.clone(), layers_mode: 0o755, lonely: false });
     }
     // top-level variants with every tree of <= 2 nodes
     for t in gen_lists(2, 1) {
-        cases.push(Case { top: Top::LinkInside, tree: t.clone(), layers_mode: 0o755 });
-        cases.push(Case { top: Top::TomlLink, tree: t.clone(), layers_mode: 0o755 });
+        cases.push(Case { top: Top::LinkInside, tree: t.clone(), layers_mode: 0o755, lonely: false });
+        cases.push(Case { top: Top::TomlLink, tree: t.clone(), layers_mode: 0o755, lonely: false });
         // a read-only layers directory (root can still delete in it; its mode is outside the layer)
-        cases.push(Case { top: Top::Real, tree: t.clone(), layers_mode: 0o555 });
+        cases.push(Case { top: Top::Real, tree: t.clone(), layers_mode: 0o555, lonely: false });
     }
-    cases.push(Case { top: Top::LinkOutside, tree: vec![], layers_mode: 0o755 });
-    cases.push(Case { top: Top::LinkOutside, tree: vec![], layers_mode: 0o555 });
+    cases.push(Case { top: Top::LinkOutside, tree: vec![], layers_mode: 0o755, lonely: false });
+    // the layer as the only entry of the layers directory (mode 0750: a re-created directory would differ)
+    for t in gen_lists(1, 1) {
+        cases.push(Case { top: Top::Real, tree: t.clone(), layers_mode: 0o750, lonely: true });
+    }
+    cases.push(Case { top: Top::LinkOutside, tree: vec![], layers_mode: 0o555, lonely: false });
     // self-test: unprivileged workers must really be unprivileged
     {
         let sc = Scratch::new("c11self");
@@ -447,7 +464,7 @@ pub fn run(args: &Args) {
     rep.cov("trees", cases.len() as u64);
     rep.cov("distinct_nontrivial", nontrivial);
     rep.cov("distinct_outcomes", json!(outcomes));
-    rep.cov("rule", "every multiset tree of <= N nodes over {file(0444), dir x modes {755,555,666,000} with children, 10 symlink kinds (inside file/dir, sibling layer dir/file, outside dir/file absolute and relative, dangling, self loop, pair loop)}, two levels, <= 3 entries per directory; plus layer path / a.toml being symlinks and a read-only (0555) layers directory (each with every <=2-node tree); each x 3 operations (uncached_layer over existing, cached_layer Delete, handle_layer Recreate) x {root, uid 65534 owner}; non-trivial = trees containing a directory or symlink, or a top-level variant");
+    rep.cov("rule", "every multiset tree of <= N nodes over {file(0444), dir x modes {755,555,666,000} with children, FIFO, UNIX socket, 10 symlink kinds (inside file/dir, sibling layer dir/file, outside dir/file absolute and relative, dangling, self loop, pair loop)}, two levels, <= 3 entries per directory; plus layer path / a.toml being symlinks and a read-only (0555) layers directory (each with every <=2-node tree), and the layer as the only entry of a 0750 layers directory; each x 3 operations (uncached_layer over existing, cached_layer Delete, handle_layer Recreate) x {root, uid 65534 owner}; non-trivial = trees containing a directory or symlink, or a top-level variant");
     rep.cov("bound", json!({"max_nodes": budget, "levels": 2, "ops": OPS, "uids": [0, NOBODY]}));
     rep.cov("exhaustive", true);
     rep.sample(json!(cases[cases.len() / 2]));
